@@ -24,8 +24,8 @@ from vlib import Check, RunnerPool, compile_job, driver, log
 from props import c03_gen as G
 
 FUEL = 600
-DEV_ALL = "er"
-DEV_TAGS = {"e": "N3-empty-list-declaration", "r": "N2-rest-separator"}
+DEV_ALL = "erq"
+DEV_TAGS = {"e": "N3-empty-list-declaration", "r": "N2-rest-separator", "q": "N4-message-quotes"}
 
 ERR_CLASSES = [
     (r"^Undefined variable\.", "undefined-variable"),
@@ -214,6 +214,8 @@ CORPUS = [
     # N2 (known): separator of a spread list bound to a rest parameter
     (("func", "f", ((), "rest"), (("ret", ("var", "rest")),)),
      ("debug", ("call", "f", (), (), ("list", (("num", F(1)), ("num", F(2))), "s", False)))),
+    # N4 (known): quoted strings keep their quotes in @debug / @warn
+    (("debug", ("str", "foo", True)), ("warn", ("str", "bar", True))),
     # precedence / unary minus spellings that once confused the printer
     (("debug", ("list", (("num", F(5)), ("bin", "add", ("neg", ("num", F(-6))), ("num", F(3)))), "s", False)),),
     (("debug", ("neg", ("call", "length", (("list", (), "u", False),), (), None))),),
